@@ -12,7 +12,7 @@ fn usage() -> ! {
 
 fn main() {
     let args: Vec<String> = std::env::args().collect();
-    if args.len() < 3 {
+    if args.len() < 2 {
         usage();
     }
     install_quiet_panic_hook();
@@ -69,6 +69,12 @@ fn main() {
                 Some(f) => std::fs::write(&f, text).expect("write --out"),
                 None => println!("{}", text),
             }
+        }
+        "digest" => {
+            // whole-workload output digest for cross-process determinism (C05)
+            let seed: u64 = args.get(2).and_then(|s| s.parse().ok()).unwrap_or(1);
+            let threads: usize = args.get(3).and_then(|s| s.parse().ok()).unwrap_or(1);
+            println!("{:#018x}", tamon::props::c05::workload_digest(seed, threads));
         }
         "replay" => {
             let code = tamon::replay::replay_file(&args[2]);
